@@ -36,6 +36,10 @@ CLAIMED = {
          "Corr arithmetic and index transformations are modelled on lists of optional N x N matrices (Corr/Ops.v) and proved, for every T, N and pattern of undefined slices: binary operations are timeslice-wise and undefined exactly where an operand is; roll moves slice t to (t+dt) mod T; reverse, thin, symmetric/anti_symmetric obey their index laws. A syntactic effect table of every method of class Corr is regenerated from the source and proved to contain no store into a parameter. "
          "Each generated operation (all operators in both orders, functions, transformations, Hankel, projected, item, trace, matrix_symmetric) is run on the implementation twice with the same argument objects, snapshotted, and judged in Coq against the model and against a pointwise specification; value and fluctuations of random slices are judged with C01's specification; complex content is validated on the supported subset.",
          "partial: trace/item/projected/matrix_symmetric/Hankel/T_symmetry have a model and a pointwise specification compared by computation but no separate index-law theorem; elementary-function values come from Python's math module; the effect analysis follows direct aliases only (snapshots cover the rest); complex content: numeric validation only.", "§3 C14"),
+ "C04": ("proof", "Coq theorems on a constructor model (every listed malformation rejected; accepted lists strictly increasing, range iff equally spaced) + AST-regenerated operator dispatch table (closure by evaluation) + in-Coq well-formedness judgement of every object produced by random operation sequences",
+         "Obs.__init__ is modelled with each of its rejections as a branch (Obs/WF.v) and proved to reject every request with a length mismatch, non-string or duplicate names, several ensembles, fewer than five samples, unsorted or duplicate configuration numbers, and to store accepted lists strictly increasing and as a range exactly when equally spaced. The isinstance chains of the arithmetic dunders are regenerated from class Obs and closure (result is a real or a complex observable for Obs / real / complex / CObs partners in both operand orders) is re-proved over the table. "
+         "The structure of every object produced by random sequences of public operations (arithmetic, functions, reweight, correlate, merge_obs, cov_Obs, json / dobs / pickle / jackknife round trips, fits, roots) is extracted and judged by the boolean well-formedness predicate inside Coq; constructor requests (valid and malformed) are compared with the model.",
+         "partial: preservation of well-formedness by the model of derived_observable is decided per generated case by evaluating wfb (C01's merge theorems give sortedness of the merged configuration lists for all inputs), not by a separate induction over operation sequences; covariance-input validation (eigenvalues) is LAPACK's and only its four rejection kinds are exercised.", "§3 C04"),
 }
 NOT_YET = "check not built yet in this session (work in progress; see DESIGN.md §6 for the order of work)"
 
